@@ -20,6 +20,44 @@ CHECKS = {
    text="Lean theorems about the term index and both search implementations (Props/C02.lean) audited on every run. " + TIE_LOC +
         "Histories of AddFact/RemFact/GetFact/SearchFacts over small id spaces under both states; searches compared with the brute-force specification and indexed with linear.",
    note=NOTE_LOC, technique="Lean 4 proof over a hand-written model + differential correspondence check (impl / model / brute-force spec / indexed vs linear)", ref="5 (C02)"),
+ "C06": dict(
+   text="Lean theorems (Props/C06.lean) about the state model: storage mirrors memory after every operation of every history, reload reproduces the facts, acknowledged adds/removes are in storage. " + TIE_LOC +
+        "Histories with reloads under {indexed, linear} x {memory, bolt}; every storage write of a history made to fail in turn (the operation must report an error); every write turned into a crash "
+        "point (in-memory objects dropped, locations reopened): storage must equal the acknowledged prefix except at the ids the interrupted operation names and their dependents.",
+   note=NOTE_LOC + " Bolt's transaction atomicity/durability and mmap aliasing are trusted (the aliasing clause is exercised only through the bolt runs); a crash is modelled as dropping memory just before a storage write.",
+   technique="Lean 4 proof over a hand-written model + differential correspondence check + storage fault and crash-point enumeration", ref="5 (C06)"),
+ "C07": dict(
+   text="Lean theorems (Props/C07.lean) about prepareFact/checkExpiration: the expiry instant is fixed at write, an item is observable iff now < expires, no expiry never expires, already expired is rejected. " + TIE_LOC +
+        "Facts and rules written with every expiry encoding (numeric, RFC3339, ttl number, ttl duration) observed before and after the instant (timed histories sleep across it) with reloads in between, both states; "
+        "the model receives the clock the harness recorded around each call.",
+   note=NOTE_LOC + " Wall clock granularity 1 s: histories in which a call ran at an expiry instant are skipped and counted.",
+   technique="Lean 4 proof over a hand-written model (comparison regenerated from the Go source) + differential correspondence check with recorded clocks", ref="5 (C07)"),
+ "C08": dict(
+   text="Lean theorems (Props/C08.lean) about the cascade of both state models: termination, exactness w.r.t. the deleteWith closure, durability. " + TIE_LOC +
+        "Dependency graphs over 2-7 ids (chains, fans, cycles, self-loops, dangling targets; facts, rules and property facts), random deletion orders and deletion by expiry; after every deletion memory and storage "
+        "are compared with the model and with the least closed set.",
+   note=NOTE_LOC, technique="Lean 4 proof over a hand-written model + differential correspondence check (impl / model / closure spec)", ref="5 (C08)"),
+ "C09": dict(
+   text="Lean theorems (Props/C09.lean) about Systems of locations: frame property, fuel sufficiency of the ancestor walk with path-based loop detection, loops reported, visits exactly the ancestors. " + TIE_LOC +
+        "Forests of 2-5 locations with changing parent lists (self/indirect loops, missing parents), histories spread over them, every location observed through inherited searches, queries and events; "
+        "snapshots of all locations around each operation check the frame property directly.",
+   note=NOTE_LOC, technique="Lean 4 proof over a hand-written model + differential correspondence check", ref="5 (C09)"),
+ "C10": dict(
+   text="Lean theorems (Props/C10.lean) about the rule lifecycle in the Location model (flag is a property fact that dies with the rule, re-add replaces, every method reports a disabled location; guard table regenerated from location.go). " + TIE_LOC +
+        "Lifecycle scripts (add/overwrite/remove/disable/enable/reload/clear/location disable) interleaved with events, with and without a parent, both states; dispatch compared with the specification "
+        "'stored, unexpired, non-scheduled, not disabled, when matches'.",
+   note=NOTE_LOC, technique="Lean 4 proof over a hand-written model + guard table regenerated from the Go source + differential correspondence check", ref="5 (C10)"),
+ "C14": dict(
+   text="Lean 4 theorems (Props/C14.lean, 11, audited each run) about an interleaving model of core.RunJavascript's watchdog protocol (caller goroutine, watchdog goroutine, timer, Interrupt cap 1, watchdogCleanup as coded / as repaired), "
+        "for all schedules by induction with invariants decided over the finite control state: fast path clean and terminating, errors never success, timeout-selection table, the repaired protocol's termination and never-blocked theorems "
+        "(and the negative theorems for the protocol as originally coded). Tied to the code by a differential run of generated scripts x timeout settings x {RunJavascript, condition, action} with a wall-clock oracle.",
+   note="Partial. Trusted: otto semantics and its statement-boundary polling of Interrupt, Go scheduler/channels/timers as modelled, wall-clock tolerances (300 ms, 3 re-runs before a timing verdict). A script blocked in a native call is stopped at its next boundary, not at the limit. The model is hand-written, not extracted.",
+   technique="Lean 4 proof over a hand-written transition-system model + differential correspondence check with timing oracle", ref="5 (C14)"),
+ "C19": dict(
+   text="Lean theorems (Props/C19.lean) about the guards of every Location method (table regenerated from location.go and compared with the model's by decide; refusal is a no-op; reads need the read key; right key transparent). " + TIE_LOC +
+        "Full matrix protection states x callers x operations with snapshots of memory and storage around each call, both states; also checked directly against the property.",
+   note=NOTE_LOC + " Operations issued from rule actions are covered only as far as they go through the same Location methods.",
+   technique="Lean 4 proof over a hand-written model + guard table regenerated from the Go source + exhaustive matrix correspondence check", ref="5 (C19)"),
  "C05": dict(
    text="Lean 4 theorems (Props/C05.lean, 13): the matcher model is sound and complete w.r.t. the partial-match specification pmv for all patOK patterns and dataOK data (unbounded; arrays with "
         "backtracking included), total, never nonGround on ground input, result set invariant under deep permutations of the pattern; negative theorem for repeated variables over structured values. "
